@@ -1907,10 +1907,25 @@ def canon_fact(c, truth=True):
     return (op, a, b)
 
 
-def path_facts(path):
-    """comparison facts known to hold along a path (from its bool switches)"""
+_INT_TYS = ("usize", "u8", "u16", "u32", "u64", "u128", "isize", "i8", "i16", "i32", "i64", "i128")
+
+
+def path_facts(path, body=None):
+    """comparison facts known to hold along a path (from its bool switches; with `body`, also from its integer matches:
+    the arm `k =>` gives x == k, the default arm x != k for every listed k, and 0 < x for an unsigned x when 0 is listed)"""
     facts = set()
     for dt, label, bb in path.conds:
+        term = body.blocks[bb]["term"] if body is not None and isinstance(bb, int) and 0 <= bb < len(body.blocks) else None
+        if dt[0] != "discr" and term is not None and term.get("k") == "switch" and term.get("discr_ty") in _INT_TYS and as_cmp(dt) is None:
+            ty = term["discr_ty"]
+            if isinstance(label, int) and not isinstance(label, bool):
+                facts.add(canon_fact(("Eq", dt, ("const", ty, label)), True))
+            elif label == "otherwise":
+                for v, _ in term["targets"]:
+                    facts.add(canon_fact(("Ne", dt, ("const", ty, v)), True))
+                    if v == 0 and ty.startswith("u"):
+                        facts.add(canon_fact(("Lt", ("const", ty, 0), dt), True))
+            continue
         if dt[0] == "discr":
             # match a.cmp(&b) { Less | Equal | Greater }: the selected arms are comparison facts
             d = dt[1]
@@ -2704,8 +2719,13 @@ def try_propagation(body, cs, tm=None):
             return {"kind": "other", "detail": "Err arm reaches a non-Err return: %s" % bad[:2]}
         return {"kind": "propagated", "detail": "Err arm bb%d -> return" % tgt, "switch": bb, "err_target": tgt, "ok_target": switch_target(t, names, "Continue" if is_branch else "Ok")}
     rt = tm.return_term()
-    if rt == key or (rt[0] == "phi" and key in rt[1]):
-        return {"kind": "returned", "detail": "is the return value"}
+    alts_ = list(rt[1]) if rt[0] == "phi" else [rt]
+    for a_ in alts_:
+        # Result::map / and_then / map_err keep an Err an Err
+        while a_ != key and a_[0] == "call" and len(a_[2]) == 2 and re.search(r"Result::<T, E>::(map|and_then|map_err)$", a_[1]):
+            a_ = a_[2][0]
+        if a_ == key:
+            return {"kind": "returned", "detail": "is the return value"}
     return {"kind": "other", "detail": "result not propagated with `?`/match-return"}
 
 
@@ -2753,7 +2773,7 @@ def table(body, max_paths=20000):
                 r.sel[nosite(deep_strip(dt[1]))] = label
             else:
                 r.bools.append((nosite(deep_strip(dt)), label))
-        r.facts = path_facts(p)
+        r.facts = path_facts(p, body)
         r.end = p.end
         r.ret = nosite(deep_strip(path_return_term(body, p))) if p.end == "return" else None
         r.retn = norm_return(body.facts, r.ret) if r.ret is not None else None  # `x.map(f)` shown as Ok{f(x)} / Some{f(x)}
@@ -3297,6 +3317,13 @@ def norm_adaptors(F, t, depth=0):
             return None
         if x[0] == "call" and len(x[2]) == 1 and re.search(r"Option::<T>::(transpose|copied|cloned|as_ref|as_deref)$|Result::<T, E>::(ok|transpose)$|Option::<.*>::transpose$", x[1]):
             return norm_adaptors(F, x[2][0], depth + 1)
+        # x.map_or(d, f) = f(x) when present, d otherwise: ('default', f(x), d); is_some_and / is_none_or likewise
+        m = x[0] == "call" and depth < 4 and re.search(r"(Option::<T>|Result::<T, E>)::(map_or|is_some_and|is_none_or|is_ok_and)$", x[1])
+        if m and len(x[2]) == (3 if m.group(2) == "map_or" else 2):
+            dflt = x[2][1] if m.group(2) == "map_or" else ("const", "bool", m.group(2) == "is_none_or")
+            inner = f(("call", "core::option::Option::<T>::map", (x[2][0], x[2][-1])))
+            if inner is not None:
+                return ("default", inner, dflt)
         return None
     return rewrite(t, f)
 
@@ -3431,7 +3458,7 @@ def iteration_table(body, head, max_paths=5000, stop_at_exit=False):
         r = IterRow()
         r.kind, r.conds, r.env, r.stores, r.blocks, r.ret, r.calls = kind, conds, env, stores, seen, ret, [(bb_, v_) for bb_, _k, v_ in calls]
         r.sites = calls
-        r.facts = path_facts(Path(conds, seen, kind))
+        r.facts = path_facts(Path(conds, seen, kind), body)
         rows.append(r)
         if len(rows) > max_paths:
             raise TooManyPaths(body.path)
